@@ -45,8 +45,18 @@ def gen_case(rng):
         junk.append([rnd_pos(rng, len(items)), kind, ctrl, rng.choice(['ab%scd', '%stail', 'head%s', 'a%sb%sc', 'head%s', '%s'])])
     case = {'items': [[p, k] for p, k in items], 'junk': junk, 'encoding': enc, 'eol': rng.choice(['\n', '\n', '\r\n']),
             'coverage': rng.choice([0.6, 1.0, 0.3]), 'ngram': rng.choice([2, 3, 4]), 'alphabet': 100, 'max_len': 21, 'hseed': rng.getrandbits(32)}
+    r = rng.random()
+    if r < 0.12:
+        # a file that begins with a run of empty lines (an export with a blank header block): 20-30 of them before the first password
+        case['junk'] = [[0, 'nocount', '\x00', '']] * rng.randint(20, 30) + case['junk']
+    elif r < 0.18:
+        # passwords that look like digests (people do use an MD5 as a password; lists of "uncrackable" plains are full of them): every line of the plain
+        # rendering is 32 / 40 / 64 hex digits
+        hx = lambda n: ''.join(rng.choice('0123456789abcdef') for _ in range(n))
+        case['items'] = [[rng.choice([hx(32), hx(32).upper(), hx(40), hx(64)]), rng.choice([1, 1, 2, 3])] for _ in range(rng.randint(3, 8))]
+        case['junk'] = [[rnd_pos(rng, len(case['items'])), 'nocount', '\x00', '']] * rng.randint(0, 2)          # nothing but the digests and, perhaps, an empty line
     # --multiword: a plain pre-training word list, the same file for every rendering; the list holds a few alpha runs that are split only because of it
-    if rng.random() < 0.4:
+    if rng.random() < 0.4 and not 0.12 <= r < 0.18:
         words = rng.sample(MW_WORDS, rng.randint(2, 5))
         for _ in range(rng.randint(1, 3)):
             a, b = rng.sample(words, 2)
@@ -118,13 +128,13 @@ def render(case, mode, rng):
             lines.extend([pw_bytes(pw)] * k)
     return b''.join(l + eol for l in lines)
 
-def digest(path):
+def digest(path, skip=(b'uuid', b'filename')):
     out = {}
     for root, dirs, files in os.walk(path):
         for f in sorted(files):
             b = open(os.path.join(root, f), 'rb').read()
             if f == 'config.ini':
-                b = b'\n'.join(l for l in b.split(b'\n') if not (l.startswith(b'uuid') or l.startswith(b'filename')))
+                b = b'\n'.join(l for l in b.split(b'\n') if not l.startswith(tuple(skip)))
             out[os.path.relpath(os.path.join(root, f), path)] = hashlib.sha256(b).hexdigest()
     return out
 
@@ -136,6 +146,7 @@ def check_case(run, case):
     enc = case['encoding']
     logical = [p for p, k in case['items'] for _ in range(k) if oracles.valid_password(p)]
     digests = {}
+    plain_noerr = None
     mw_notes = {}
     nontriv = bool(case['junk']) or any(p != p.strip() or must_hex(p) for p, k in case['items'])
     for mode in ['plain', 'hex', 'mix', 'prefix', 'prefixhex']:
@@ -191,6 +202,29 @@ def check_case(run, case):
             if leaked:
                 run.violation(f'rendering {mode}: the trainer parsed strings that are not passwords of the list', case, observed=leaked[:5]); return
             digests[mode] = digest(path)
+            if mode == 'plain':
+                plain_noerr = digest(path, skip=(b'uuid', b'filename', b'number_of_encoding_errors'))
+        finally:
+            repo.drop_rules(name)
+    # junk lines are skipped: the list without them trains the same ruleset (config.ini counts the undecodable lines, nothing else may differ) - and a list
+    # that trains without its junk lines trains with them
+    if case['junk']:
+        name, path = repo.new_rules_dir('c19')
+        try:
+            clean = render(dict(case, junk=[]), 'plain', rng)
+            mwdata = ''.join(w + case['eol'] for w in case['multiword']).encode(enc) if case.get('multiword') else None
+            res = trainer.train(clean, path, multiword_data=mwdata, encoding=enc, coverage=case['coverage'], ngram=case['ngram'], alphabet_size=case['alphabet'],
+                                max_len=case['max_len'], prefixcount=False)
+            run.ev('junk_free_trainings')
+            if res.ok and digests.get('plain') is None:
+                run.violation('the list trains without its junk lines (blank / control-character / undecodable lines) but the trainer refused / did not complete it with them', case,
+                              observed={'plain_head': render(case, 'plain', rng)[:120].decode('latin-1')}); return
+            if res.ok:
+                d = digest(path, skip=(b'uuid', b'filename', b'number_of_encoding_errors'))
+                if d != plain_noerr:
+                    diff = sorted(k for k in set(d) | set(plain_noerr) if d.get(k) != plain_noerr.get(k))
+                    run.violation(f'the ruleset trained from the list with its junk lines differs from the one trained without them in {diff[:5]}', case, observed=diff); return
+                run.ev('junk_free_rulesets_identical')
         finally:
             repo.drop_rules(name)
     # the real CLI with --prefixcount on the prefixed rendering must give the same tree (argument plumbing of -e / --prefixcount)
@@ -227,6 +261,10 @@ def check_case(run, case):
             import shutil
             shutil.rmtree(os.path.join(sdir, 'Rules', nm), ignore_errors=True)
     live = {m: d for m, d in digests.items() if d is not None}
+    if live and len(live) < len(digests):
+        dead = sorted(m for m, d in digests.items() if d is None)
+        run.violation(f'the trainer refused / did not complete the training for rendering(s) {dead} although it trained the equivalent rendering(s) {sorted(live)} of the same list', case,
+                      observed={'plain_head': render(case, 'plain', rng)[:120].decode('latin-1')}); return
     if len(live) >= 2:
         ref_mode = next(iter(live))
         for m, d in live.items():
